@@ -143,8 +143,8 @@ func Inputs(rng *rand.Rand, n *Node, count, maxLen int) [][]rune {
 				s = append(s[:i], append([]rune{alpha[rng.Intn(len(alpha))]}, s[i:]...)...)
 			}
 		}
-		if len(s) > maxLen {
-			s = s[:maxLen]
+		if limit := maxLen + minRunes(n); len(s) > limit {
+			s = s[:limit]
 		}
 		res = append(res, s)
 	}
@@ -170,4 +170,43 @@ func Exhaustive(alpha []rune, maxLen, maxAlpha int) [][]rune {
 		prev = cur
 	}
 	return res
+}
+
+// minRunes is a rough lower bound of the runes a match consumes (so that inputs for patterns with
+// large counted repetitions are not truncated below what the pattern needs); capped at 200.
+func minRunes(n *Node) int {
+	var f func(n *Node) int
+	f = func(n *Node) int {
+		switch n.Kind {
+		case KLit, KClass, KDot, KShort, KCat:
+			return 1
+		case KSeq:
+			t := 0
+			for _, s := range n.Subs {
+				t += f(s)
+			}
+			return t
+		case KAlt:
+			m := -1
+			for _, s := range n.Subs {
+				if v := f(s); m < 0 || v < m {
+					m = v
+				}
+			}
+			if m < 0 {
+				m = 0
+			}
+			return m
+		case KQuant:
+			return n.Lo * f(n.Subs[0])
+		case KGroup, KCap, KAtomic, KBalance:
+			return f(n.Subs[0])
+		}
+		return 0
+	}
+	v := f(n)
+	if v > 200 {
+		v = 200
+	}
+	return v
 }
